@@ -241,7 +241,7 @@ pub fn run(ctx: &Ctx) -> Report {
             1 => tok().prop_map(|t| E::T(Tst::XattrMatch("user.tag".into(), t))),
             1 => tok().prop_filter("format literal", |t| !t.contains('%') && !t.contains('\\')).prop_map(|t| E::A(Act::Printf(vec![FEl::Lit(t), FEl::E(Esc::Newline)]))),
         ];
-        let strat = (gen::expr_over(leaf.boxed(), 4, 12, true), prop_oneof![3 => Just(None), 1 => gen::count_u32().prop_map(Some)], proptest::collection::vec(op, 2..6)).prop_map(|(t, th, mut ops)| {
+        let strat = (gen::related(gen::expr_over(leaf.boxed(), 4, 12, true), true), prop_oneof![3 => Just(None), 1 => gen::count_u32().prop_map(Some)], prop_oneof![6 => proptest::collection::vec(op.clone(), 2..6), 1 => proptest::collection::vec(op, 8..40)]).prop_map(|(t, th, mut ops)| {
             // paths derived from an earlier path of the same history (its escaped, unescaped, trimmed,
             // slash-stripped or doubled form): a cache keyed on the wrong form would confuse them
             let first = ops.iter().find_map(|o| if let Op::Scheme(p) = o { Some(p.clone()) } else { None });
@@ -332,6 +332,32 @@ pub fn run(ctx: &Ctx) -> Report {
         st
     });
     total.merge(clock);
+    // many distinct devices, then earlier ones again (a bounded memory of recent renderings must
+    // forget, never confuse): N paths in a row, then the oldest, a middle one, the one before the
+    // newest, and all of them backwards
+    let mut stm = Stats::new();
+    for n in [2usize, 3, 4, 5, 7, 8, 9, 10, 15, 16, 17, 31, 32, 33, 64, 65, 100, 257] {
+        for (k, t) in [E::and(E::T(Tst::Name("*.dat".into())), E::A(Act::Print)), E::and(E::T(Tst::IName("x".into())), E::A(Act::FPrint0("list.out".into())))].iter().enumerate() {
+            let path = |i: usize| if k == 0 { format!("lustre-MDT{i:04x}") } else { format!("/dev/mapper/\"mdt\\{i}") };
+            let mut ops: Vec<Op> = (0..n).map(|i| Op::Scheme(path(i))).collect();
+            ops.push(Op::IoMap);
+            for i in [0, n / 2, n.saturating_sub(2), 1.min(n - 1), n - 1] {
+                ops.push(Op::Scheme(path(i)));
+            }
+            if n <= 33 {
+                for i in (0..n).rev() {
+                    ops.push(Op::Scheme(path(i)));
+                }
+            }
+            let v = judge(t, None, &ops);
+            stm.record(&v, stable_hash(&(t, &ops)), true, || json!({"kind": "many-devices", "devices": n, "tree": term::encode_expr(t)}));
+            if let Verdict::Fail(_) = v {
+                stm.failures.last_mut().map(|f| f.case = case_json(t, None, &ops));
+            }
+        }
+    }
+    stm.samples.clear();
+    total.merge(stm);
     // device paths that a truncated fingerprint cannot tell apart, rendered one after the other
     let mut tw = Stats::new();
     let twins = fingerprint_twins("/dev/mapper/lustre-mdt", "");
@@ -358,7 +384,7 @@ pub fn run(ctx: &Ctx) -> Report {
         .collect();
     Report {
         stats: total,
-        rule: "random compiled expressions (supported vocabulary, <=12 nodes) x histories of 2..6 operations from {scheme(p), io_map()} with p from benign paths and hostile strings (quotes, backslashes, parentheses, comment characters, blanks, non-ASCII, empty, 2-10 kB), modelled as vec(op) + interpreter. Oracle: scheme(p) twice -> identical text (also re-rendered after the whole history); for p != q the two programs, read by the independent reader, differ in exactly one leaf, the first argument of the lipe-scan call, decoding to p resp. q; io_map() is equal at every call; a second compiled expression is alive during the whole history and is rendered, and parse/compile are called, between the operations of about half of the steps (neither value may be affected by the other). Also: pairs of equal-length paths whose std-hasher values agree in the low 32 bits (found by a birthday search at run time, six ways of feeding the hasher) and pairs that weak fingerprints confuse, rendered one right after the other. Non-trivial: history with >=2 distinct paths of which one is hostile. Distinct: by (tree, history).".into(),
+        rule: "random compiled expressions (supported vocabulary, <=12 nodes) x histories of 2..6 (some of 8..40) operations from {scheme(p), io_map()} with p from benign paths and hostile strings (quotes, backslashes, parentheses, comment characters, blanks, non-ASCII, empty, 2-10 kB), modelled as vec(op) + interpreter. Oracle: scheme(p) twice -> identical text (also re-rendered after the whole history); for p != q the two programs, read by the independent reader, differ in exactly one leaf, the first argument of the lipe-scan call, decoding to p resp. q; io_map() is equal at every call; a second compiled expression is alive during the whole history and is rendered, and parse/compile are called, between the operations of about half of the steps (neither value may be affected by the other). Also: 2..257 distinct devices in a row followed by renderings for the oldest, a middle one, the last but one and all of them backwards; a string of the expression used as device path; spellings of one path that a path library identifies, back to back; pairs of equal-length paths whose std-hasher values agree in the low 32 bits (found by a birthday search at run time, six ways of feeding the hasher) and pairs that weak fingerprints confuse, rendered one right after the other. Non-trivial: history with >=2 distinct paths of which one is hostile. Distinct: by (tree, history).".into(),
         assumptions: vec!["the harness's reader implements Guile's string syntax".into()],
         exhaustive: false,
     }
